@@ -62,10 +62,15 @@ def build(prop, variant):
     if ALT:
         mod = os.path.join(BIN, "go.mod")
         with _modlock:
+            # written once per process: a second build thread must not rewrite it while the first go build reads it
             txt = open(os.path.join(HARNESS, "go.mod")).read().replace("=> /repo", "=> " + os.path.abspath(REPO))
-            with open(mod, "w") as f:
-                f.write(txt)
-            shutil.copyfile(os.path.join(REPO, "go.sum"), os.path.join(BIN, "go.sum"))
+            if not os.path.exists(mod) or open(mod).read() != txt:
+                with open(mod + ".new", "w") as f:
+                    f.write(txt)
+                os.replace(mod + ".new", mod)
+            sumsrc, sumdst = os.path.join(REPO, "go.sum"), os.path.join(BIN, "go.sum")
+            if not os.path.exists(sumdst) or open(sumsrc).read() != open(sumdst).read():
+                shutil.copyfile(sumsrc, sumdst)
         modflag = ["-modfile=" + mod]
     else:
         try:
